@@ -493,8 +493,9 @@ def build(label, src):
             pass
 
 first, later = [], []
-for label, src in corpus:
+for label, src in corpus:               # all first builds first: identical DUIDs in every process (hash-seed dimension)
     first.append(build(label, src))
+for label, src in corpus:
     ts = []
     for k in offsets:
         # unrelated objects elaborated before the design is built again: shifts every DUID of the design by its own
